@@ -10,8 +10,11 @@ EXTENDS Grammar, TLC, Json
 CONSTANTS NTs,        \* non-terminal names; "S" is the start symbol
           Ts,         \* terminal names
           MaxProds,   \* maximal number of productions
+          MinProds,   \* minimal number of productions (1 for exhaustive runs; larger for random walks)
           MaxRhs,     \* maximal length of a right-hand side
-          Shard, NShards   \* this process explores grammars whose first production index = Shard mod NShards
+          Shard, NShards,  \* this process explores grammars whose first production index = Shard mod NShards
+          Ordered     \* TRUE: productions are added in the canonical order of PS (exhaustive enumeration without
+                      \* repetition); FALSE: in any order (random walks of `tlc -simulate` over larger universes)
 
 VARIABLES g,      \* sequence of indices into PS, strictly increasing
           done
@@ -19,9 +22,16 @@ evars == <<g, done>>
 
 Start == "S"
 Syms   == NTs \cup Ts
-AllRhs == UNION {[1..n -> Syms] : n \in 0..MaxRhs}
+SeqsUpTo(n) == UNION {[1..m -> Syms] : m \in 0..n}
+\* exhaustive mode: every right-hand side up to MaxRhs; random-walk mode: right-hand sides that are
+\* empty, start with a terminal, or start with a non-terminal and have length <= 2 (high yield of
+\* grammars that are LL(k) for some k in 1..3, with nullable prefixes and FOLLOW interplay)
+AllRhs == IF Ordered THEN SeqsUpTo(MaxRhs)
+          ELSE {<<>>} \cup {<<t>> \o r : t \in Ts, r \in SeqsUpTo(MaxRhs - 1)}
+                      \cup {<<A>> \o r : A \in NTs, r \in SeqsUpTo(1)}
 AllProds == {[lhs |-> A, rhs |-> r] : A \in NTs, r \in AllRhs}
 PS == SetToSeq(AllProds)
+IdxOf == [A \in NTs |-> {i \in 1..Len(PS) : PS[i].lhs = A}]
 
 ProdSeq(s) == [i \in 1..Len(s) |-> PS[s[i]]]
 NtsOf(ps) == {Start} \cup {ps[i].lhs : i \in 1..Len(ps)}
@@ -30,12 +40,23 @@ GrammarOf(s) == LET ps == ProdSeq(s) IN [start |-> Start, nts |-> NtsOf(ps), pro
 G == GrammarOf(g)
 
 EInit == g = <<>> /\ done = FALSE
-Add == /\ ~done /\ Len(g) < MaxProds
-       /\ \E i \in (IF g = <<>> THEN 1 ELSE g[Len(g)] + 1)..Len(PS) :
-            /\ (g = <<>> => i % NShards = Shard)
-            /\ g' = Append(g, i)
-       /\ UNCHANGED done
-Fin == ~done /\ g # <<>> /\ done' = TRUE /\ UNCHANGED g
+\* exhaustive mode: canonical order
+AddOrdered == /\ ~done /\ Len(g) < MaxProds
+              /\ \E i \in (IF g = <<>> THEN 1 ELSE g[Len(g)] + 1)..Len(PS) :
+                   /\ (g = <<>> => i % NShards = Shard)
+                   /\ g' = Append(g, i)
+              /\ UNCHANGED done
+\* random-walk mode: grow the grammar top-down so that it stays connected: the next production is
+\* for a reachable non-terminal, preferably one that has no production yet
+Needy == {A \in Reachable(G) : ProdsOf(G, A) = {}}
+AddGuided == /\ ~done /\ Len(g) < MaxProds
+             /\ \E A \in (IF g = <<>> THEN {Start} ELSE IF Needy # {} THEN Needy ELSE Reachable(G)) :
+                  \E i \in IdxOf[A] :
+                     /\ \A j \in 1..Len(g) : g[j] # i
+                     /\ g' = Append(g, i)
+             /\ UNCHANGED done
+Add == IF Ordered THEN AddOrdered ELSE AddGuided
+Fin == ~done /\ Len(g) >= MinProds /\ (Ordered \/ Needy = {}) /\ done' = TRUE /\ UNCHANGED g
 ENext == Add \/ Fin
 ESpec == EInit /\ [][ENext]_evars
 
